@@ -17,6 +17,7 @@ package main
 
 import (
 	"encoding/json"
+	"errors"
 	"fmt"
 	"math"
 	"math/big"
@@ -46,6 +47,11 @@ type c18Case struct {
 	Rate uint32  `json:"rate"` // Options.SampleRate as float32 bits (0 = unset)
 	Prec uint    `json:"prec"` // Options.HistogramBucketNamePrecision (0 = unset)
 	Ops  []c18Op `json:"ops"`
+	// what the recording client returns from its methods after recording the call:
+	// 0 nil, 1 always an error, 2 an error from every second call, 3 an error
+	// for certain (stat, value) pairs.  "Exactly one call on the underlying
+	// client" holds whatever the client returns.
+	Err int `json:"err,omitempty"`
 	// concurrent stream (c18conc.go): when set, Ops is empty and the calls are
 	// regenerated from Conc.Seed
 	Conc *c18Conc `json:"conc,omitempty"`
@@ -56,12 +62,33 @@ type c18Case struct {
 type c18Statter struct {
 	mu  sync.Mutex
 	log []Ev
+	err int // error mode (c18Case.Err)
+	n   int
 }
+
+var errC18Client = errors.New("recording statsd client: injected error (the call was recorded)")
 
 func (s *c18Statter) rec(m int, name string, v int64, rate float32, tags []cstatsd.Tag, extra ...string) error {
 	s.mu.Lock()
 	defer s.mu.Unlock()
 	s.log = append(s.log, Ev{K: m, I: []int64{v, int64(math.Float32bits(rate)), int64(len(tags))}, S: append([]string{name}, extra...)})
+	s.n++
+	switch s.err {
+	case 1:
+		return errC18Client
+	case 2:
+		if s.n%2 == 1 {
+			return errC18Client
+		}
+	case 3:
+		h := uint64(v)
+		for i := 0; i < len(name); i++ {
+			h = h*31 + uint64(name[i])
+		}
+		if h%3 != 0 {
+			return errC18Client
+		}
+	}
 	return nil
 }
 func (s *c18Statter) Inc(n string, v int64, r float32, t ...cstatsd.Tag) error {
@@ -221,6 +248,9 @@ func c18Gen(r *Rng, i int) c18Case {
 	if i%16 == 0 { // make sure the four option classes all occur early
 		c.Rate, c.Prec = 0, 0
 	}
+	if r.Chance(40) { // the client returns errors (always / alternating / for certain stats)
+		c.Err = r.Range(1, 3)
+	}
 	nops := r.Range(1, 7)
 	for j := 0; j < nops; j++ {
 		o := c18Op{Name: c18Name(r), Tags: r.Tags(3)}
@@ -298,7 +328,7 @@ type c18Result struct {
 }
 
 func c18Run(c *c18Case) (res c18Result) {
-	st := &c18Statter{}
+	st := &c18Statter{err: c.Err}
 	rep := tstatsd.NewReporter(st, tstatsd.Options{SampleRate: math.Float32frombits(c.Rate), HistogramBucketNamePrecision: c.Prec})
 
 	wantRate := int64(c.Rate)
@@ -515,13 +545,17 @@ func c18Class(c *c18Case) string {
 			h = "hist"
 		}
 	}
-	return fmt.Sprintf("rate=%s/prec=%s/%s", r, p, h)
+	e := "client-ok"
+	if c.Err != 0 {
+		e = "client-errors"
+	}
+	return fmt.Sprintf("rate=%s/prec=%s/%s/%s", r, p, h, e)
 }
 
 func init() {
 	props["C18"] = func(ctx *Ctx) {
 		ctx.Header("StatsdCorr")
-		ctx.Res.Rule = "case = (sample rate option, precision option, sequence of calls on the statsd reporter; a histogram call expands to one samples call per bucket pair of tally.BucketPairs); generated from the seed; non-trivial = at least one report call reached the client path; distinct by hash of the case; plus a concurrent stream: 2..8 goroutines make such calls on ONE reporter at the same time (uncontrolled schedule), the multiset of client calls must be the expected one"
+		ctx.Res.Rule = "case = (sample rate option, precision option, what the recording client returns (nil / errors), sequence of calls on the statsd reporter; a histogram call expands to one samples call per bucket pair of tally.BucketPairs); generated from the seed; non-trivial = at least one report call reached the client path; distinct by hash of the case; plus a concurrent stream: 2..8 goroutines make such calls on ONE reporter at the same time (uncontrolled schedule), the multiset of client calls must be the expected one"
 		renderings := 0
 		one := func(c *c18Case) {
 			if c.Conc != nil {
@@ -539,7 +573,7 @@ func init() {
 				}
 			}
 			idx := ctx.Res.Evaluations
-			ctx.Case(c, gcase(idx, []int64{int64(c.Rate), int64(c.Prec)}, res.in, res.obs), c18Class(c), key)
+			ctx.Case(c, gcase(idx, []int64{int64(c.Rate), int64(c.Prec), int64(c.Err)}, res.in, res.obs), c18Class(c), key)
 			if res.fail != "" {
 				ctx.Fail(res.pred, res.fail, c, res.obs)
 			}
